@@ -10,7 +10,7 @@ from ..cfg import own_exprs
 from ..facts import FactFlow, Fact, atoms, enumerate_paths
 from ..report import Ctx
 from .common import (
-    always_before, decision_table, expand, increment_of, guard, holds_with_callers, local_aliases, need, node_of, stmts_matching, xpath,
+    NotTabulable, OrderEval, always_before, decision_table, enclosing_stmt, expand, increment_of, guard, holds_with_callers, local_aliases, need, node_of, stmts_matching, xpath,
 )
 
 SIM = "happysimulator/core/simulation.py"
@@ -803,6 +803,73 @@ def _counter_continues(ctx: Ctx, fn, set_call: ast.Call) -> tuple[bool, str]:
     return True, "holds: counter re-based above every index seen by the heap: " + "; ".join(unparse(s_) for _, s_ in starts)
 
 
+def rule_inheritance_horizon_floor(ctx: Ctx) -> None:
+    """Second-round rules: a continuation inherits its event's identity; the horizon is measured from the start time; the index floor
+    ends above every index the heap has seen."""
+    prog = ctx.prog
+    # (a) every ProcessContinuation built in core/event.py carries over the same identity fields from the event it continues
+    carry = {"event_type": "self.event_type", "daemon": "self.daemon", "target": "self.target", "on_complete": "self.on_complete", "context": "self.context"}
+    n = 0
+    for fn in prog.module(EV).all_functions:
+        for c in calls_in(fn.node):
+            if path_of(c.func) == "ProcessContinuation":
+                n += 1
+                kw = {k.arg: unparse(k.value) for k in c.keywords}
+                miss = sorted(k for k, v in carry.items() if kw.get(k) != v)
+                ctx.ob("C01-10", "G4", fn, c, not miss and "process" in kw and "time" in kw,
+                       f"{fn.qual}: a continuation inherits event_type, daemon, target, completion hooks and context from the event it continues (a dropped `daemon` turns background work into primary work and the run no longer ends)"
+                       + ("" if not miss else f" — not carried over: {miss}"))
+    need(n >= 2, f"C01-10: expected >= 2 ProcessContinuation construction sites in core/event.py, found {n}")
+    # (b) a duration is measured from the start time
+    init = prog.func(SIM, "Simulation.__init__")
+    adds = [x for x in walk_scope(init.node) if isinstance(x, ast.BinOp) and isinstance(x.op, ast.Add) and "duration" in (path_of(x.left), path_of(x.right))]
+    need(adds, "C01-10: Simulation.__init__ no longer adds the duration to anything")
+    ff = ctx.flow(init)
+    for x in adds:
+        base = path_of(x.right if path_of(x.left) == "duration" else x.left)
+        okb = base == "self._start_time"
+        if okb:
+            # and the start time has been defaulted before it is used
+            st = enclosing_stmt(init, x)
+            defaults = [s2 for s2 in walk_stmts(init.node.body) if isinstance(s2, ast.Assign) and path_of(s2.targets[0]) == "self._start_time"]
+            okb = bool(defaults) and not always_before(ctx, init, lambda nd: any(nd.ast is d for d in defaults), lambda nd: nd.ast is st)
+        ctx.ob("C01-10", "G7", init, x, okb, "the horizon given as a duration is start_time + duration (measured from the run's own start, not from the epoch)")
+    ends = [s2 for s2 in walk_stmts(init.node.body) if isinstance(s2, ast.Assign) and path_of(s2.targets[0]) == "self._end_time"]
+    allowed = {"self._start_time + duration", "end_time", "Instant.Infinity"}
+    for s2 in ends:
+        ctx.ob("C01-10", "G7", init, s2, unparse(s2.value) in allowed, f"the horizon is one of start+duration / the given end_time / infinity (found `{unparse(s2.value)}`)")
+    # (c) index floor: after a push the floor lies above the pushed index, for every ordering of (index, floor)
+    ps = prog.func(HEAP, "EventHeap._push_single")
+    bad = []
+    for idx, floor in ((0, 1), (1, 1), (2, 1), (5, 0), (0, 0)):
+        env = {"self._index_floor": floor, "event._sort_index": idx, "event": {"_sort_index": idx, "daemon": True, "event_type": "x", "time": 0, "context": {}},
+               "self._primary_event_count": 0, "self._tracing_enabled": False, "self._heap": ()}
+        ev = OrderEval(env, calls={"heapq.heappush": lambda e, c: None, "logger.isEnabledFor": lambda e, c: False, "logger.debug": lambda e, c: None})
+        try:
+            ev.run(ps.node)
+        except NotTabulable as exc:
+            raise AnalysisError(f"C01-10: EventHeap._push_single is not tabulable ({exc})") from exc
+        got = ev.env["self._index_floor"]
+        if got != max(floor, idx + 1):
+            bad.append(f"index={idx} floor={floor} -> floor {got} (want {max(floor, idx + 1)})")
+    ctx.ob("C01-10", "G3", ps, "floor = max(floor, index + 1)", not bad, "after every push the heap's index floor lies strictly above the pushed event's creation index (so the run-time counter never re-issues an index)"
+           + ("" if not bad else " — " + "; ".join(bad[:3])))
+    # the same for every site that maintains the floor (constructor loop included): written only as `index + 1`, under `index >= floor`
+    heap = prog.cls(HEAP, "EventHeap")
+    nfl = 0
+    for m in heap.methods.values():
+        mf = ctx.flow(m)
+        for s2 in walk_stmts(m.node.body):
+            if isinstance(s2, ast.Assign) and path_of(s2.targets[0]) == "self._index_floor" and not (isinstance(s2.value, ast.Constant)):
+                nfl += 1
+                enc = [i2 for i2 in walk_stmts(m.node.body) if isinstance(i2, ast.If) and any(b is s2 for b in i2.body)]
+                okf = unparse(s2.value).replace(" ", "") == "event._sort_index+1" and len(enc) == 1 and not enc[0].orelse \
+                    and {f.sig for f in atoms(enc[0].test, True)} == {("le", "self._index_floor", "event._sort_index")}
+                ctx.ob("C01-10", "G6", m, s2, okf, f"EventHeap.{m.name}: the index floor is raised to index + 1 whenever an index at or above it is seen (`>=`, not `>`)")
+    need(nfl >= 2, f"C01-10: expected >= 2 index-floor maintenance sites, found {nfl}")
+    ctx.floor("C01-10", 8)
+
+
 def run(ctx: Ctx) -> None:
     ctx.guarded(rule_ordering_tables)
     ctx.guarded(rule_heap_pairing)
@@ -810,6 +877,7 @@ def run(ctx: Ctx) -> None:
     ctx.guarded(rule_autoterminate)
     ctx.guarded(rule_sort_index)
     ctx.guarded(rule_context_exit_and_clock)
+    ctx.guarded(rule_inheritance_horizon_floor)
 
 
 # ------------------------------------------------------------------------------------------------
@@ -818,6 +886,10 @@ def run(ctx: Ctx) -> None:
 _LE_INSTANT = ("    def __le__(self, other: Instant) -> bool:\n        if not isinstance(other, Instant):\n            return NotImplemented\n"
                "        return self.nanoseconds <= other.nanoseconds")
 MUTANTS = [
+    ("continuation-drops-daemon", EV, "        continuation = ProcessContinuation(\n            time=self.time,\n            event_type=self.event_type,\n            daemon=self.daemon,", "        continuation = ProcessContinuation(\n            time=self.time,\n            event_type=self.event_type,", "C01-10"),
+    ("duration-from-epoch", SIM, "            self._end_time = self._start_time + duration", "            self._end_time = Instant.Epoch + duration", "C01-10"),
+    ("index-floor-strict", HEAP, "        heapq.heappush(self._heap, event)\n        if event._sort_index >= self._index_floor:", "        heapq.heappush(self._heap, event)\n        if event._sort_index > self._index_floor:", "C01-10"),
+    ("index-floor-strict-in-ctor", HEAP, "            if event._sort_index >= self._index_floor:", "            if event._sort_index > self._index_floor:", "C01-10"),
     ("lt-index-flipped", EV, "return self._sort_index < other._sort_index", "return self._sort_index > other._sort_index", "C01-1"),
     ("lt-time-only", EV, "        if self.time != other.time:\n            return self.time < other.time\n        return self._sort_index < other._sort_index",
      "        return self.time < other.time", "C01-1"),
